@@ -39,7 +39,13 @@ def snapshot(scheme) -> dict:
         snap["parameters.bounds"] = _h(json.dumps([(r[0], r[2], r[3]) for r in rows]).encode())
         snap["parameters.flags"] = _h(json.dumps([(r[0], r[4], r[5]) for r in rows]).encode())
         snap["parameters.expressions"] = _h(json.dumps([(r[0], r[6]) for r in rows]).encode())
-    snap["model"] = _h(json.dumps(scheme.model.as_dict(), sort_keys=True, default=repr).encode())
+    def _strkeys(x):      # k-matrix entries are keyed by tuples
+        if isinstance(x, dict):
+            return {(k if isinstance(k, str) else repr(k)): _strkeys(v) for k, v in x.items()}
+        if isinstance(x, (list, tuple)):
+            return [_strkeys(v) for v in x]
+        return x
+    snap["model"] = _h(json.dumps(_strkeys(scheme.model.as_dict()), sort_keys=True, default=repr).encode())
     for label in sorted(scheme.data):
         ds = scheme.data[label]
         for var in ("data", "weight"):
